@@ -189,7 +189,7 @@ def c08_shapes(tier):
     out = []
     if tier == 'quick':
         for q, c, p in [(30, 3, 1), (100, 2, 1), (60, 0, 2), (30, 6, 5)]:
-            out += [(q, c, p, l) for l in (1, 2, 3, 4)]
+            out += [(q, c, p, l) for l in (1, 2, 3, 4, 5)]
         return out
     for q in (30, 100, 500):
         for c in (0, 2, 3, 6):
@@ -198,6 +198,8 @@ def c08_shapes(tier):
                 span = 2 * p * q // (ce + 1)
                 if span * (2 * p + 3) <= 60000 and q >= 10 * ce:
                     out += [(q, c, p, l) for l in (1, 2, 3, 4)]
+                if q >= 10 * ce:
+                    out.append((q, c, p, 5))
     return out
 
 def c17_shapes(tier):
@@ -321,13 +323,13 @@ PROPS = {
         'level': 'model_checking',
         'bounds': 'inductive steps of the real warm-up calculator from an arbitrary state: stored tokens in [0, max_token], one time step of 0..2p+2 s (idle lemma: 2p..5p s) at any millisecond phase, '
                   'previous-interval pass count in [0, q]; (q, cold factor, period) concrete per shape: quick {(30,3,1),(100,2,1),(60,default,2),(30,6,5)}, thorough all of q in {30,100,500} x c in {default,2,3,6} x p in {1,5,20} '
-                  'with q >= 10c whose token range stays enumerable; trajectory claims (ramp within 2p+2 s) follow from the lemmas by the ranking argument in DESIGN.md, not from a solver run',
+                  'with q >= 10c whose token range stays enumerable; plus the ramp trajectory itself (2p+2 one-second steps from cold under the slowest saturating demand, symbolic millisecond phase) for every listed (q, c, p) - other saturating demands follow from lemmas 2 and 3 by the monotonicity argument in DESIGN.md, not from a solver run',
         'assumptions': ['the calculator is wired to a controller like the built-in generator does, with a harness ReadStat supplying the previous-interval pass count', 'state set/read through the verif_state hooks',
                         'float results compared with 1e-9 relative tolerance (the implementation nudges by one ulp)',
                         'stored tokens above the warning line and the elapsed seconds enter non-exact float arithmetic and are therefore enumerated by the solver (every feasible value is a path)'],
         'scenarios': [
             {'name': 'c08_warmup', 'shapes': {'quick': c08_shapes('quick'), 'thorough': c08_shapes('thorough')}, 'concretize_cap': 8000,
-             'witnesses': ['same-second', 'new-second', 'warm', 'cold', 'ramping', 'idle'], 'selftest': {'quick': 12, 'thorough': 60}},
+             'witnesses': ['same-second', 'new-second', 'warm', 'cold', 'ramping', 'idle', 'ramped'], 'selftest': {'quick': 12, 'thorough': 60}},
         ],
     },
     'C09': {
